@@ -14,6 +14,8 @@ property files against it.  Expected: exactly the theorems about the edited func
   E4  cc_static_pool_malloc  fit test `size > ...` -> `size >= ...`                -> core_malloc_agrees
                         (its proof fails; spool_malloc_agrees, core_calloc_agrees, spool_calloc_agrees are
                         proved FROM it — calloc calls malloc — and are reported as resting on a failed theorem)
+  E5..E12  guards whose removal only loses `fault = false`, constructor / destructor edits (see SCENARIOS)
+  W1..W4   integer widths other than 64 bit and macros inside a translated file -> the translator refuses
   H   behaviour-preserving: local `used` renamed, `++x` written `x = x + 1`, `--x` written `x -= 1`,
       a redundant block and cast                                                    -> nothing fails
   H6-1, H6-2, H6-3   the coordinator's behaviour-preserving rewrites (seeded_harmless/H6-*/patch.diff:
@@ -50,6 +52,40 @@ SCENARIOS = [
     ("E4 static pool malloc: fit test `>` -> `>=`",
      [(SP, "cc_static_pool_malloc", "size > pool->size - used", "size >= pool->size - used")],
      {"core_malloc_agrees"}),
+    ("E5 peek: upper-bound guard dropped (values still coincide, only `fault = false` is lost)",
+     [(RB, "cc_rbuf_peek", "index < 0 || (size_t) index >= rbuf->capacity", "index < 0")],
+     {"rbuf_peek_agrees"}),
+    ("E6 dequeue: the emptiness guard dropped",
+     [(RB, "cc_rbuf_dequeue", "if (cc_rbuf_is_empty(rbuf))\n        return CC_ERR_OUT_OF_RANGE;\n", "")],
+     {"rbuf_dequeue_agrees"}),
+    ("E7 calloc: `memset` no longer guarded by `if (ptr)` (memset(NULL) on a refused request)",
+     [(SP, "cc_static_pool_calloc",
+       "if ((ptr = cc_static_pool_malloc(count * size, pool))) {\n        memset(ptr, 0, (count * size));\n    }",
+       "ptr = cc_static_pool_malloc(count * size, pool);\n    memset(ptr, 0, (count * size));")],
+     {"core_calloc_agrees"}),
+    ("E8 calloc: operands of the overflow guard exchanged (division by zero for size 0)",
+     [(SP, "cc_static_pool_calloc", "size != 0 && count > ((size_t) -1) / size", "count > ((size_t) -1) / size && size != 0")],
+     {"core_calloc_agrees"}),
+    ("E9 constructor: `ringbuf->head = 0` -> `= 1`",
+     [(RB, "cc_rbuf_conf_new", "ringbuf->head        = 0;", "ringbuf->head        = 1;")],
+     {"rbuf_conf_new_agrees"}),
+    ("E10 constructor: the release pointer is not copied into the new buffer",
+     [(RB, "cc_rbuf_conf_new", "ringbuf->mem_free    = rconf->mem_free;", "")],
+     {"rbuf_conf_new_agrees"}),
+    ("E11 static pool constructor ignores `offset`",
+     [(SP, "cc_static_pool_new", "pool->block    = data_buf + offset;", "pool->block    = data_buf;")],
+     {"spool_new_agrees"}),
+    ("E12 destroy no longer releases the struct (leak)",
+     [(RB, "cc_rbuf_destroy", "rbuf->mem_free(rbuf);", "")],
+     {"rbuf_destroy_agrees"}),
+    ("W1 width: `size_t head, tail;` -> `uint8_t head, tail;` (must be refused)",
+     [(RB, None, "    size_t head, tail;", "    uint8_t head, tail;")], None),
+    ("W2 width: `(size_t) index` -> `(uint8_t) index` in peek (must be refused)",
+     [(RB, "cc_rbuf_peek", "(size_t) index", "(uint8_t) index")], None),
+    ("W3 width: `size_t used` -> `uint32_t used` in malloc (must be refused)",
+     [(SP, "cc_static_pool_malloc", "size_t used", "uint32_t used")], None),
+    ("W4 a file-level `#define tail head` (must be refused)",
+     [(RB, None, "struct ring_buffer_conf {", "#define tail head\nstruct ring_buffer_conf {")], None),
     ("H  behaviour-preserving rewrites",
      [(SP, "cc_static_pool_malloc", "size_t used = pool->free_ptr - pool->low_ptr;",
        "size_t taken = (size_t) (pool->free_ptr - pool->low_ptr);"),
@@ -62,6 +98,7 @@ SCENARIOS = [
        "rbuf->size = (rbuf->size < rbuf->capacity) ? rbuf->size + 1 : rbuf->size;"),
       (SP, "cc_static_pool_free", "if (ptr == pool->high_ptr) {\n        pool->free_ptr = pool->high_ptr;\n    }",
        "uint8_t* top;\n    top = pool->high_ptr;\n    if (ptr != top) {\n    } else if (ptr == top) {\n        pool->free_ptr = top;\n    }"),
+      (RB, "cc_rbuf_peek", "(size_t) index >= rbuf->capacity", "index >= rbuf->capacity"),   # C converts the int itself
       (SP, "cc_static_pool_free_bytes", "return pool->size - (pool->free_ptr - pool->low_ptr);",
        "size_t n = pool->size;\n    n -= (pool->free_ptr - pool->low_ptr);\n    return n;")],
      set()),
@@ -79,7 +116,12 @@ def mutate(repo, f, fname, old, new):
     """replace `old` by `new` inside the definition of fname only"""
     p = repo / f
     txt = p.read_text()
-    m = re.search(r"^[\w \*]*\b" + re.escape(fname) + r"\s*\(", txt, re.M)
+    if fname is None:
+        if txt.count(old) != 1:
+            raise SystemExit(f"self-test: `{old}` occurs {txt.count(old)} times in {f}")
+        p.write_text(txt.replace(old, new))
+        return
+    m = re.search(r"^(?:\w[\w \*]*)?\b" + re.escape(fname) + r"\s*\(", txt, re.M)
     if not m:
         raise SystemExit(f"self-test: {fname} not found in {f}")
     end = txt.index("\n}", m.start())
@@ -181,6 +223,12 @@ def main():
         tmp = Path(t)
         for k, (label, edits, expected) in enumerate(SCENARIOS):
             bad, examples, problems, lines, txt, tainted = run(tmp, f"s{k}", edits)
+            if expected is None:
+                good = bool(problems)
+                print(f"[{'ok' if good else 'FAIL'}] {label}")
+                print(f"        translator: {problems[0] if problems else 'NO PROBLEM REPORTED'}")
+                ok = ok and good
+                continue
             good = bad == expected and not problems
             if label == "baseline":
                 same = txt == (GEN / "Funcs.lean").read_text()
